@@ -24,9 +24,13 @@ func VerifC19_PromiseSeq() {
 	for step := 0; step < nops; step++ {
 		st := string(rune('0' + step))
 		switch verifChoice("op"+st, 3) {
-		case 0: // Fulfill
-			v := verifInt("v"+st, 1, 3)
-			err := p.Fulfill(v)
+		case 0: // Fulfill (value 0 stands for the nil interface value, a legitimate result)
+			v := verifInt("v"+st, 0, 3)
+			var arg interface{}
+			if v > 0 {
+				arg = v
+			}
+			err := p.Fulfill(arg)
 			switch {
 			case failed:
 				verifAssert(err != nil, "fulfill-of-failed-promise-errors")
@@ -56,7 +60,7 @@ func VerifC19_PromiseSeq() {
 			r := <-p.Wait()
 			if set {
 				got, isInt := r.Value.(int)
-				verifAssert(isInt && got == val, "wait-returns-the-settled-value")
+				verifAssert((val == 0 && r.Value == nil) || (isInt && got == val), "wait-returns-the-settled-value")
 			}
 			verifAssert((r.Err != nil) == failed, "wait-returns-the-failure")
 		}
